@@ -157,6 +157,39 @@ def check_pair(case):
                         out.viol('wrong-value', pt, tiny=True, **sig)
                 except Exception as e:
                     out.viol('raised', 'div_(%s with b scaled by 1e-9, join=%s) raised %s: %s' % (desc, how, type(e).__name__, e), exc=type(e).__name__, tiny=True, **sig)
+            if op == 'div' and ma:
+                # an infinite numerator over a non-zero denominator is a legitimate infinite quotient (only a ZERO denominator gives NaN)
+                out.sub()
+                try:
+                    d_inf = sorted(ma)[0]
+                    ma_inf = dict(ma)
+                    ma_inf[d_inf] = float('inf')
+                    ri = opfun('div')(tm.build_series(ma_inf), tm.build_series(mb), join=how)
+                    out.call()
+                    days_i = tm.common_days([set(ma), set(mb)], how)
+                    xa, xb = tm.align(ma_inf, days_i), tm.align(mb, days_i)
+                    expi = {d: (None if (xa[d] is None or xb[d] is None or xb[d] == 0) else xa[d] / xb[d]) for d in days_i}
+                    pi_ = result_problem(ri, expi, 'div_(%s with a[%d] = inf, join=%s)' % (desc, d_inf, how))
+                    if pi_:
+                        out.viol('wrong-value', pi_, inf_numerator=True, **sig)
+                except Exception as e:
+                    out.viol('raised', 'div_(%s with an infinite numerator, join=%s) raised %s: %s' % (desc, how, type(e).__name__, e), exc=type(e).__name__, inf_numerator=True, **sig)
+            if op in ('add', 'max') and ma and mb:
+                # the SAME operand objects again after the index of one of them was replaced in place (same length): the second result is for the operands as they are now
+                out.sub()
+                try:
+                    a2, b2 = tm.build_series(ma), tm.build_series(mb)
+                    opfun(op)(a2, b2, join=how)
+                    a2.index = a2.index + pd.Timedelta(days=1)
+                    ma2 = {d + 1: v for d, v in ma.items()}
+                    r2 = opfun(op)(a2, b2, join=how)
+                    out.call(2)
+                    p2_ = result_problem(r2, expect_series(op, [ma2, mb], how), '%s_(a, b, join=%s) called again on the same objects after a.index was shifted by a day in place (%s)' % (op, how, desc))
+                    if p2_:
+                        out.viol('wrong-value', p2_, after_index_edit=True, **sig)
+                except Exception as e:
+                    out.viol('raised', '%s_ twice with an in-place index edit in between (%s, join=%s) raised %s: %s' % (op, desc, how, type(e).__name__, e), exc=type(e).__name__,
+                             after_index_edit=True, **sig)
             if op in ('div', 'add'):
                 # a fill method on the alignment (C03's as-of fill / a constant) comes BEFORE the operation: zeros the fill creates or carries forward
                 # are divisors like any other (NaN, never inf), zeros in the data are not holes to be filled
